@@ -1,0 +1,76 @@
+//! Verification hooks (compiled only with `--cfg stam_verif`).
+//!
+//! A small registry through which an external simulator can take over the sources of
+//! nondeterminism and I/O of this library: the file system (`Vfs`), scheduling points
+//! (`yield_point`), and generated identifiers (`IdSource`). All slots are thread-local and
+//! empty unless a harness fills them, in which case the library behaves exactly as without the
+//! hooks. It also exposes read-only dumps of the internal reverse indices.
+
+use std::cell::RefCell;
+use std::io::{BufRead, Write};
+use std::path::Path;
+use std::rc::Rc;
+
+/// Virtual file system: everything the library reads or writes goes through this when installed.
+pub trait Vfs {
+    fn open(&self, path: &Path) -> std::io::Result<Box<dyn BufRead>>;
+    fn create(&self, path: &Path) -> std::io::Result<Box<dyn Write>>;
+}
+
+thread_local! {
+    static VFS: RefCell<Option<Rc<dyn Vfs>>> = RefCell::new(None);
+    static YIELD: RefCell<Option<Rc<dyn Fn(&'static str)>>> = RefCell::new(None);
+    static IDSOURCE: RefCell<Option<Rc<dyn Fn(&str, &str) -> String>>> = RefCell::new(None);
+}
+
+/// Install (or remove, with `None`) the virtual file system for the current thread.
+pub fn set_vfs(vfs: Option<Rc<dyn Vfs>>) {
+    VFS.with(|slot| *slot.borrow_mut() = vfs);
+}
+
+/// Install (or remove) the callback invoked at scheduling points for the current thread.
+pub fn set_yield(f: Option<Rc<dyn Fn(&'static str)>>) {
+    YIELD.with(|slot| *slot.borrow_mut() = f);
+}
+
+/// Install (or remove) the source of generated identifiers for the current thread.
+pub fn set_idsource(f: Option<Rc<dyn Fn(&str, &str) -> String>>) {
+    IDSOURCE.with(|slot| *slot.borrow_mut() = f);
+}
+
+pub(crate) fn vfs() -> Option<Rc<dyn Vfs>> {
+    VFS.with(|slot| slot.borrow().clone())
+}
+
+/// A scheduling point; no-op unless a callback is installed. Never called while a lock guard is held.
+pub(crate) fn yield_point(site: &'static str) {
+    let f = YIELD.with(|slot| slot.borrow().clone());
+    if let Some(f) = f {
+        f(site);
+    }
+}
+
+pub(crate) fn generated_id(prefix: &str, suffix: &str) -> Option<String> {
+    let f = IDSOURCE.with(|slot| slot.borrow().clone());
+    f.map(|f| f(prefix, suffix))
+}
+
+fn ioerr(e: std::io::Error, path: &Path, msg: &'static str) -> crate::error::StamError {
+    crate::error::StamError::IOError(e, path.to_string_lossy().into_owned(), msg)
+}
+
+pub(crate) fn vfs_open(
+    vfs: &Rc<dyn Vfs>,
+    path: &Path,
+) -> Result<Box<dyn BufRead>, crate::error::StamError> {
+    vfs.open(path)
+        .map_err(|e| ioerr(e, path, "Opening file for reading failed"))
+}
+
+pub(crate) fn vfs_create(
+    vfs: &Rc<dyn Vfs>,
+    path: &Path,
+) -> Result<Box<dyn Write>, crate::error::StamError> {
+    vfs.create(path)
+        .map_err(|e| ioerr(e, path, "Opening file for reading failed"))
+}
